@@ -22,7 +22,7 @@ TEXTS = {
         "technique": "differential runtime monitoring against an independent spec-level writer's ground truth",
     },
     "C04": {
-        "level_text": "Lock-step sequential-model monitor over edit histories: every sequence of <=5 (quick) / <=6 (thorough) operations over an 11-symbol alphabet (adjacent ids, colliding contents, save+reopen sync/async) from two start states, plus long random histories over up to 10^3 ids with periodic save+reopen in all codecs; after every operation the whole observable state (lookups by id and by coordinates, listing, count) is compared with a BTreeMap model and the in-crate store report (feature verif) must show no internal disagreement. Evidence includes the op x abstract-pre-state transition matrix.",
+        "level_text": "Lock-step sequential-model monitor over edit histories: every sequence of <=5 (quick) / <=6 (thorough) operations over a 12-symbol alphabet (adjacent ids, colliding contents, save+reopen sync/async) from two start states, plus long random histories over up to 10^3 ids with periodic save+reopen in all codecs; after every operation the whole observable state (lookups by id and by coordinates, listing, count) is compared with a BTreeMap model and the in-crate store report (feature verif) must show no internal disagreement. Evidence includes the op x abstract-pre-state transition matrix.",
         "level_note": "Trusted: the BTreeMap model; the verif hook only reads the three internal maps. Bounded-exhaustive part is exhaustive only for the stated alphabet and length.",
         "technique": "runtime monitoring against an executable sequential model (bounded-exhaustive + random histories) with an in-crate invariant hook",
     },
